@@ -95,3 +95,11 @@ Fixpoint nodup_keys_b (l : list (Z * Z)) : bool :=
   match l with [] => true | k :: r => negb (existsb (fun x => (fst x =? fst k) && (snd x =? snd k)) r) && nodup_keys_b r end.
 Definition keys_ok_b (sc : script) (n : Z) (es : list event) : bool :=
   nodup_keys_b (run_keys sc n es) && forallb (fun k => snd k <? 1000) (run_keys sc n es).
+
+(* ---- static side conditions (Proofs/SimLinkP.v guards_hold): with these, run_guard_b and run_ack_guard_b are theorems ---- *)
+Definition event_b2 (sc : script) (n : Z) (e : event) : bool := event_b sc n e && (0 <=? b_delay (ev_book e)).
+Definition cfg_ok_b (cf : config) : bool := negb (status_in SPending (cf_mw_live cf)) && negb (status_in SExecComplete (cf_mw_live cf)).
+Definition initial_b (s : sim) : bool :=
+  nodup_keys_b (map (fun m => (mk_id m, 0)) (s_markets s)) &&
+  forallb (fun m => match mk_orders m, mk_analytics m, mk_book m with [], [], None => true | _, _, _ => false end) (s_markets s) &&
+  match s_queue s with [] => true | _ => false end && (1000 <=? s_next_name s).
